@@ -98,7 +98,10 @@ CLAIMS = {
             'C03_helper_call_simulates -- the call site around any helper honouring the System V ABI gives the registered function r1..r5, defines r0, brings r6..r10 back and leaves '
             'the helper\'s garbage in r1..r5; C03_run_refines -- the code of every accepted program whose calls are helper calls returns the value and leaves the memory of the ISA run '
             '(in which r1-r5 hold that garbage after a call: the plain ISA run when there is no call, C03_reference_without_calls) for every input, budget, content of the '
-            'unmapped / unwritten registers and garbage; jit_steps is evaluated inside Coq against the real JIT on the raw VM on every run (helper-call programs included). Searched, not proved: the CPU executing the bytes '
+            'unmapped / unwritten registers and garbage; jit_steps is evaluated inside Coq against the real JIT on the raw VM on every run (helper-call programs included). C03_jit_agrees_with_interpreter (IsaDef.v, DefRun.v): the '
+            'property in its own terms -- whenever the ISA run that tracks defined registers (r1, r10 at entry; a helper call defines r0 and un-defines r1-r5) returns, i.e. the program terminates, '
+            'accesses are in bounds and no undefined register is read, the regenerated interpreter and the modelled x86-64 code both return that value and leave that memory '
+            '(C03_undefined_registers_do_not_matter is the non-interference step behind it). Searched, not proved: the CPU executing the bytes '
             'and the CPU itself, by executing compiled '
             'code in a child process against the interpreter on a corpus of ~8000 programs built to cover every opcode x every destination/source register pair x '
             'boundary immediates and displacements x control-flow shapes x program lengths above 65535 x 4 VM kinds (about 14000 runs), plus the C07 call graphs. '
@@ -115,7 +118,9 @@ CLAIMS = {
             'condition -> successor; hand-written over the regenerated arms) is the ISA step whenever the ISA step succeeds, for every opcode the verifier accepts '
             '(C04_accepted_opcodes_translated); C04_run_refines -- for every accepted program with helper calls only, every input and budget, the run of cl_exec from the '
             'registers of the regenerated prelude (C04_entry_registers: the interpreter\'s but for r2) returns the ISA value and leaves the ISA memory; cl_run is evaluated '
-            'inside Coq against the real compiled code on every run (value, packet and metadata bytes, traps). '
+            'inside Coq against the real compiled code on every run (value, packet and metadata bytes, traps). C04_cranelift_agrees_with_interpreter: whenever the ISA run that tracks '
+            'defined registers returns (termination, accesses in bounds, no undefined register read -- r2, which Cranelift sets at entry, included), the regenerated interpreter and '
+            'the modelled Cranelift code return that value and leave that memory. '
             'How blocks are laid out and sealed, what a called helper does and Cranelift code generation are not modelled: compiled code is executed '
             'against the interpreter (= ISA by C01) on the same corpus as C03; programs with local calls must be refused (ERR) by compilation. This search found that '
             'every 64-bit conditional jump was compiled as its 32-bit variant (fixed: 742bb11).',
@@ -125,7 +130,8 @@ CLAIMS = {
             'stack, the packet (when present) or the metadata buffer (when present) -- for every base, offset, width and region layout; C11_regions: the region '
             'variables are the slices passed and the 512-byte slot; C11_check_precedes_access: reg_load/reg_store/reg_atomic_add check first, with the type, base '
             'and offset of the access they perform; C11_checked_access_is_the_isa_access: width and effective address of all 22 memory opcodes (incl. '
-            'absolute / indirect loads) are the ISA\'s. Compiled code is run in a child against guard pages on the address grid and compared with the interpreter\'s '
+            'absolute / indirect loads) are the ISA\'s; C11_compiled_step_safe: as a property of the compiled step (ClStep.cl_exec) a load / store / atomic add either completes having made '
+            'its access entirely inside the stack, the packet or the metadata buffer, or traps before touching memory, exactly when the access is not of that kind. Compiled code is run in a child against guard pages on the address grid and compared with the interpreter\'s '
             'decision (C02 theorem) and with the IR model. PARTIAL in that Cranelift\'s code generation is trusted (exercised, not verified).',
             'Cranelift IR semantics modelled by hand (ClirSem.v); IR -> machine code trusted.'),
     'C12': ('proof', 'PARTIAL. Theorems C12_jit_jump_targets / C12_jit_call_targets: for every program accepted by the (regenerated) verifier, the target that the x86-64 JIT '
